@@ -3,6 +3,7 @@ import Driver.C03
 import Driver.C04
 import Driver.C05
 import Driver.C06
+import Driver.C09
 import Driver.C10
 import Driver.C12
 import Driver.C14
@@ -22,6 +23,7 @@ def dispatch (line : String) : String :=
   | "C04" :: args => Driver.C04.handle args
   | "C05" :: args => Driver.C05.handle args
   | "C06" :: args => Driver.C06.handle args
+  | "C09" :: args => Driver.C09.handle args
   | "C10" :: args => Driver.C10.handle args
   | "C12" :: args => Driver.C12.handle args
   | "C14" :: args => Driver.C14.handle args
